@@ -181,7 +181,7 @@ type columnSortIndex struct {
 // newSortIndex creates a new bitmap index column.
 func newSortIndex(indexName, columnName string) *column {
 	byKeys := func(a, b sortIndexItem) bool {
-		return a.Key < b.Key
+		return a.Key < b.Key || (a.Key == b.Key && a.Value < b.Value)
 	}
 	return columnFor(indexName, &columnSortIndex{
 		btree:   btree.NewBTreeG(byKeys),
